@@ -16,7 +16,9 @@ Tie / oracle, every run:
      conditional expressions, f-strings); the parameter value Pony binds (`query._vars`) is compared with the value
      Python computes for the subexpression in place.
 """
-import ast, copy, itertools, json, random, re, sys, traceback
+import ast, copy, itertools, json, random, re, sys, traceback, warnings
+
+warnings.simplefilter('ignore', SyntaxWarning)
 
 from pony.orm.asttranslation import ast2src
 
@@ -162,7 +164,28 @@ class _Norm(ast.NodeTransformer):
         return n
 
 
-def normal_dump(tree, top=True):
+class _Fold(ast.NodeTransformer):
+    """what the bytecode compiler folds (applied to both sides when a parameter is matched against the query text)"""
+    OK = (int, float, str, bool)
+    def visit_BinOp(self, n):
+        self.generic_visit(n)
+        if isinstance(n.left, ast.Constant) and isinstance(n.right, ast.Constant) and type(n.left.value) in self.OK and type(n.right.value) in self.OK:
+            try:
+                v = eval(compile(ast.fix_missing_locations(ast.Expression(body=copy.deepcopy(n))), '<fold>', 'eval'), {})
+            except Exception:
+                return n
+            if type(v) in self.OK and len(repr(v)) < 40: return ast.Constant(value=v)
+        return n
+    def visit_UnaryOp(self, n):
+        self.generic_visit(n)
+        if isinstance(n.operand, ast.Constant) and type(n.operand.value) in (int, float) and not isinstance(n.op, ast.Not):
+            try: v = eval(compile(ast.fix_missing_locations(ast.Expression(body=copy.deepcopy(n))), '<fold>', 'eval'), {})
+            except Exception: return n
+            return ast.Constant(value=v)
+        return n
+
+
+def normal_dump(tree, fold=False):
     t = copy.deepcopy(tree)
     if isinstance(t, ast.FormattedValue): t = ast.JoinedStr(values=[t])
     # lone FormattedValue nodes below the top
@@ -180,6 +203,7 @@ def normal_dump(tree, top=True):
             return self.visit_JoinedStr(ast.JoinedStr(values=[n]))
     t = Lone().visit(t)
     t = _Norm().visit(t)
+    if fold: t = _Norm().visit(_Fold().visit(t))
     return ast.dump(t)
 
 
@@ -589,6 +613,8 @@ def parser_tie(ctx, n):
         got = o.get('parse') if 'driver_error' not in o else {'driver_error': o['driver_error']}
         if want is None: ctx.count('parser-tie:both-reject' if got is None else 'parser-tie:lean-accepts-cpython-rejects')
         else: ctx.count('parser-tie:accepted')
+        if got is None and isinstance(py, ast.Tuple):
+            ctx.count('parser-tie:bare-top-level-tuple'); continue     # `a, b` at top level: not an expression of the grammar
         if got != want:
             ctx.divergence('Lean reference parser and CPython disagree', s, model=got, impl=want)
 
@@ -606,7 +632,7 @@ class TExpr:
                              'lst[0]', 'lst[-1]', "d['k']", 'd[1, 2]', 'd[(k,)]', 'd[k,]', 'len(s)', 'gf(a)', 'cf(b)', 'o.m(c)',
                              'o.m(c, y=a)', 'o.u.m(k)', 'GD[GA]', 'lst[1:][0]', 'd[()]'])
         X = lambda: self.i(d - 1); B = lambda: self.b(d - 1); S = lambda: self.s(d - 1)
-        k = r.randrange(30)
+        k = r.randrange(31)
         if k < 8: return '%s %s %s' % (self.par(X()), r.choice(['+', '-', '*', '&', '|', '^']), self.par(X()))
         if k == 8: return '%s %s (%s %% 3 + 1)' % (self.par(X()), r.choice(['//', '%']), X())
         if k == 9: return '%s %s (%s %% 3)' % (self.par(X()), r.choice(['<<', '>>']), X())
@@ -629,6 +655,7 @@ class TExpr:
         if k == 26: return 'lst[%s %% 3]' % X()
         if k == 27: return '(%s).real' % X()
         if k == 28: return '[%s, %s][%s:][0]' % (X(), X(), B())
+        if k == 29: return r.choice(['[(lambda: %s)()][0]', "{'k': (lambda: %s)()}['k']", '[(lambda u: u + %s)(1)][0]']) % X()
         return "{'p': %s, 'q': %s}[%s]" % (X(), X(), "'p' if %s else 'q'" % B())
     def par(self, x):
         return '(%s)' % x if self.r.random() < .5 else x
@@ -745,11 +772,13 @@ def scope_values(rng):
     lst = [iv(), iv(), iv(), iv()]
     clo = dict(n1=iv(), n2=iv(), cs=sv(), cf=lambda x, y=0, m=iv(): x + m - y)
     loc = dict(a=iv(), b=iv(), c=iv(), s=sv(), t=sv(), o=o, d=d, lst=lst, lst2=[sv(), sv()], k=k)
-    glo = dict(GA=rng.choice([0, 1, 2]), GB=iv(), GS=sv(), GO=Obj(iv(), sv()), GD={0: iv(), 1: iv(), 2: iv()})
+    glo = dict(GA=rng.choice([0, 1, 2]), GB=iv(), GS=sv(), GO=Obj(iv(), sv()), GD={0: iv(), 1: iv(), 2: iv()},
+               a=1000 + iv(), s='GLOBAL' + sv())     # module-level names shadowed by the caller's locals
     return clo, loc, glo
 
 
 def typed(v):
+    if isinstance(v, list): v = tuple(v)       # extract_vars: an unsupported sequence type is passed as a tuple
     return [type(v).__name__, v if isinstance(v, (int, float, str, bool, type(None))) else repr(v)]
 
 
@@ -776,7 +805,7 @@ def e2e_case(ctx, recorder, form, expr, clo, loc, glo, label):
     ns = {}
     exec(compile(src, '<c04-e2e-%d>' % len(_keep), 'exec'), G, ns)
     run = ns['outer'](**clo); _keep.append(run)
-    recorder.clear()
+    recorder.clear(); recorder.trees = []
     with G['db_session']:
         exp, res = run(**loc)
     ctx.case(['e2e', form, expr, label], kind='e2e:' + form)
@@ -793,6 +822,8 @@ def e2e_case(ctx, recorder, form, expr, clo, loc, glo, label):
                 if cause != exp[1]:
                     return {'what': 'different exception', 'python': exp[1], 'pony': cause}
                 return None
+            if cause == 'NameError':
+                ctx.count('e2e:loud:ExprEvalError(NameError)'); return None      # loud; e.g. a lambda body cannot see eval's locals
             return {'what': 'Pony fails to evaluate an expression Python evaluates', 'python': typed(exp[1]), 'pony': str(e)[:200]}
         if not recorder:
             ctx.count('e2e:loud:' + type(e).__name__); return None
@@ -801,39 +832,51 @@ def e2e_case(ctx, recorder, form, expr, clo, loc, glo, label):
         ctx.count('e2e:no-extraction'); return None
     vars = recorder[-1]
     bound = {k[1]: v for k, v in vars.items() if k[1] not in ('P', '.0')}
-    if exp[0] == 'err':
-        return {'what': 'Python raises, Pony binds a value', 'python': exp[1], 'pony': {k: typed(v) for k, v in bound.items()}}
     tree = ast.parse(expr, mode='eval').body
-    whole = len(bound) == 1 and not any(isinstance(n, ast.Lambda) for n in ast.walk(tree))
-    if whole:
-        (psrc, pval), = bound.items()
-        if typed(pval) != typed(exp[1]):
-            return {'what': 'bound parameter differs from the value Python computes in place', 'python': typed(exp[1]),
-                    'pony': typed(pval), 'regenerated_source': psrc}
-    else:
-        # the expression was split (lambda inside, tuple/list display, ...): every parameter must be a subexpression of
-        # the original text and carry the value Python computes for that subexpression in place
-        ctx.count('e2e:params-%d' % len(bound))
-        env = dict(G); env.update(clo); env.update(loc)
-        subs = {}
-        for n in ast.walk(tree):
+    env = dict(G); env.update(clo); env.update(loc)
+    def index(t):
+        out = {}
+        for n in ast.walk(t):
             if isinstance(n, ast.expr) and not isinstance(n, (ast.Starred, ast.Slice)):
-                try: subs.setdefault(normal_dump(n), n)
+                try: out.setdefault(normal_dump(n, fold=True), n)
                 except Exception: pass
-        for psrc, pval in bound.items():
-            back = reparse(psrc)
-            if back is None:
-                return {'what': 'regenerated source of a parameter does not compile', 'pony': psrc}
-            orig = subs.get(normal_dump(back))
+        return out
+    subs = index(tree)
+    pony_subs = {}
+    for t in recorder.trees: pony_subs.update(index(t))
+    whole = normal_dump(tree, fold=True)
+    if len(bound) != 1: ctx.count('e2e:params-%d' % len(bound))
+    for psrc, pval in bound.items():
+        back = reparse(psrc)
+        if back is None:
+            return {'what': 'regenerated source of a parameter does not compile', 'pony': psrc}
+        nd = normal_dump(back, fold=True)
+        orig = subs.get(nd)
+        if orig is None:
+            orig = pony_subs.get(nd)
             if orig is None:
                 return {'what': 'regenerated source of a parameter is not a subexpression of the query', 'pony': psrc, 'python': expr}
-            try: want = eval(compile(ast.fix_missing_locations(ast.Expression(body=copy.deepcopy(orig))), '<sub>', 'eval'), env)
-            except Exception as e:
-                return {'what': 'Python raises for a subexpression Pony evaluated', 'pony': psrc, 'python': type(e).__name__}
-            if callable(want) or callable(pval): continue
-            if typed(pval) != typed(want):
-                return {'what': 'bound parameter differs from the value Python computes in place', 'python': typed(want),
-                        'pony': typed(pval), 'regenerated_source': psrc}
+            ctx.count('e2e:matched-only-in-the-decompiled-tree')
+        elif nd == whole:
+            ctx.count('e2e:whole-expression-is-one-parameter')
+            if exp[0] == 'err':
+                return {'what': 'Python raises, Pony binds a value', 'python': exp[1], 'pony': typed(pval)}
+        try: want = eval(compile(ast.fix_missing_locations(ast.Expression(body=copy.deepcopy(orig))), '<sub>', 'eval'), env)
+        except Exception as e:
+            return {'what': 'Python raises for a subexpression Pony evaluated', 'pony': psrc, 'python': type(e).__name__}
+        if callable(want) or callable(pval): continue
+        if typed(pval) != typed(want):
+            return {'what': 'bound parameter differs from the value Python computes in place', 'python': typed(want),
+                    'pony': typed(pval), 'regenerated_source': psrc}
+    if exp[0] == 'ok' and len(bound) == 1 and not any(isinstance(n, ast.Lambda) for n in ast.walk(tree)):
+        (psrc, pval), = bound.items()
+        if normal_dump(reparse(psrc), fold=True) != whole:
+            ctx.count('e2e:single-parameter-is-a-proper-part')
+        elif typed(pval) != typed(exp[1]):
+            return {'what': 'bound parameter differs from the value Python computes in place', 'python': typed(exp[1]),
+                    'pony': typed(pval), 'regenerated_source': psrc}
+        if form in ('gen', 'lam', 'filter') and typed(pval) != typed(exp[1]) and normal_dump(reparse(psrc), fold=True) != whole:
+            ctx.count('e2e:decompiled-tree-differs-from-the-source(C03)')
     ctx.count('e2e:equal')
     return None
 
@@ -853,6 +896,12 @@ def install_recorder():
         return r
     extract_vars._c04 = True; extract_vars._rec = rec
     core.extract_vars = extract_vars
+    rec.trees = []
+    orig_ce = core.create_extractors
+    def create_extractors(code_key, tree, *a, **k):
+        rec.trees.append(tree)
+        return orig_ce(code_key, tree, *a, **k)
+    core.create_extractors = create_extractors
     return rec
 
 
@@ -887,6 +936,8 @@ E2E_WITNESSES = [   # regression inputs of the defects found by this check (fixe
     ('chain', 'o.u.m(lst[k], y=d["k"]) + GO.n'),
     ('star-args', "gf(*[a, b]) + gf(a, **{'y': c})"),
     ('slice', 'lst[k:][0] + lst[::2][1] + lst[:-1][0]'),
+    ('lambda in a list display', '[(lambda: a)()][0]'),
+    ('lambda in a dict display', "{'k': (lambda: a)()}['k']"),
 ]
 
 
